@@ -727,122 +727,31 @@ def check_g(prog, rep):
     rep.floor(R, "bodies that mention the layout counters", n, 5)
 
 
-def _parse_expr(t):
-    """canonical text `f(a,g(b),c)` -> (name, [children]) ; leaves -> (text, [])"""
-    t = t.strip()
-    i = t.find("(")
-    if i <= 0 or not t.endswith(")") or not re.match(r"^[A-Za-z_][\w:<>]*$", t[:i]):
-        return (t, [])
-    depth, args, cur = 0, [], ""
-    for ch in t[i + 1:-1]:
-        if ch in "([{":
-            depth += 1
-        elif ch in ")]}":
-            depth -= 1
-        if ch == "," and depth == 0:
-            args.append(cur)
-            cur = ""
-        else:
-            cur += ch
-    if cur.strip():
-        args.append(cur)
-    return (t[:i], [_parse_expr(a) for a in args])
-
-
-SIMD_LOGIC = ("_mm256_or_si256", "_mm256_and_si256", "_mm256_andnot_si256", "_mm256_xor_si256", "_mm_or_si128", "_mm_and_si128")
-SIMD_COMPARE = ("_mm256_cmpeq_epi8", "_mm256_cmpgt_epi8", "_mm_cmpeq_epi8", "_mm_cmpgt_epi8", "_mm_cmplt_epi8")
-
 
 def check_h(prog, rep):
     """C04.h — the vectorised identifier scanner hands its position to the scalar scanner, which slices the text there (`input[offset..]`
     panics inside a character).  The position stays on a character boundary because the vector loop steps over ASCII bytes only:
-    (1) before a chunk is classified, a test on the top bit of every byte (`testz(splat(0x80), chunk)` / `movemask(chunk)`) leaves the
-    loop for the scalar scanner; (2) the per-byte mask that decides how far to step is built from byte comparisons of the chunk
-    (cmpeq / cmpgt, combined with and / or) — the raw chunk itself is never or-ed into it (its top bits are set exactly in the bytes
-    of multi-byte characters, which would then be stepped over 32 bytes at a time)."""
+    (1) before a chunk is classified, a test on the top bit of every byte (`testz(splat(0x80), chunk)` / `movemask(chunk)`, in the loop
+    or in a nested helper) decides between classifying the chunk and leaving the loop for the scalar scanner; (2) the per-byte mask
+    that decides how far to step is built from byte comparisons of the chunk (cmpeq / cmpgt, combined with and / or / andnot) — the raw
+    chunk itself never reaches it (its top bits are set exactly in the bytes of multi-byte characters, which would then be stepped
+    over 32 bytes at a time).  Read off the canonical expression of `movemask`'s operand with the scanner's helpers expanded (simd.py)."""
     R = "C04.h"
-    from util import canon
-    LX = "pasfmt_core::defaults::lexer::"
-    b = prog.body(LX + "find_identifier_end_avx2")
-    if b is None:
+    import simd
+    cl = simd.classification(prog)
+    if cl is None:
         rep.note("C04.h: no AVX2 identifier scanner in this configuration")
         return
-    fam = {b.npath: b}
-    for x in prog.bodies.values():
-        if x.npath.startswith(b.npath + "::"):
-            fam[x.npath] = x
-
-    def ret_expr(x):
-        """canonical text of what a loop-free helper returns (last assignment to _0 / its call)"""
-        for c in x.calls():
-            if c.t.get("dst") and c.t["dst"]["l"] == 0 and not c.t["dst"]["p"]:
-                return "%s(%s)" % ((c.callee or "?").split("::")[-1], ",".join(canon(x, a) for a in c.args))
-        for bb, i, st in x.stmts():
-            if st["k"] == "assign" and st["dst"]["l"] == 0 and not st["dst"]["p"] and st["rv"]["k"] == "use":
-                return canon(x, st["rv"]["op"])
-        return None
-
-    def mask_only(node, raw, depth=0):
-        """[] if the value is built from byte comparisons only; else the raw leaves that reach it"""
-        nm, ch = node
-        if nm in SIMD_COMPARE:
-            return []
-        if nm in SIMD_LOGIC:
-            return [r for c in ch for r in mask_only(c, raw, depth)]
-        hb = [x for k, x in fam.items() if k.endswith("::" + nm)]
-        if hb and depth < 3 and ch:
-            re_ = ret_expr(hb[0])
-            if re_ is None:
-                return ["%s(..)" % nm]
-            bad = mask_only(_parse_expr(re_), {"arg%d" % (i + 1) for i in range(len(ch))}, depth + 1)
-            # a raw parameter of the helper reaching its result: raw iff the argument passed for it is
-            out = []
-            for r in bad:
-                m = re.match(r"^arg(\d+)$", r)
-                if m and int(m.group(1)) <= len(ch):
-                    out += mask_only(ch[int(m.group(1)) - 1], raw, depth + 1)
-                else:
-                    out.append(r)
-            return out
-        return [nm if not ch else "%s(..)" % nm]
-    mm = [c for c in b.calls() if (c.callee or "").split("::")[-1] in ("_mm256_movemask_epi8", "_mm_movemask_epi8")]
-    if not rep.check(len(mm) >= 1, R, "anchor:movemask", "the vector scanner no longer turns a byte mask into a bit mask with movemask (the rule is about how that mask is built)"):
+    b = cl["main"]
+    if not rep.check(len(cl["step"]) >= 1, R, "anchor:movemask", "the vector scanner no longer turns a computed byte mask into a bit mask with movemask (the rule is about how that mask is built)"):
         return
-    for c in mm:
-        raw = mask_only(_parse_expr(canon(b, c.args[0])), set())
-        rep.check(not raw, R, "step-mask-from-comparisons-only",
-                  "the mask that decides how many bytes the vector scanner steps over contains %s, not only byte comparisons: the top bit of a raw byte is set in every byte of a multi-byte "
-                  "character, so the scanner steps through such characters in 32-byte chunks and can hand the scalar scanner a position inside a character (slice panic)" % sorted(set(raw))[:2],
-                  where=c.where(), instance={"mask": canon(b, c.args[0])[:80], "raw_leaves": sorted(set(raw))[:3]})
-    # (1) the top-bit test in front of the classification
-    def is_topbit_test(x, c, rawnames):
-        nm = (c.callee or "").split("::")[-1]
-        args = [canon(x, a) for a in c.args]
-        if nm in ("_mm256_testz_si256", "_mm_testz_si128") and len(args) == 2:
-            return any(re.search(r"set1_epi8\(-128\)", a) for a in args) and any(a in rawnames or "loadu" in a for a in args)
-        if nm in ("_mm256_movemask_epi8", "_mm_movemask_epi8"):
-            return args[0] in rawnames or args[0].startswith("_mm256_loadu")
-        return False
-    guard = None
-    for c in b.calls():
-        if not any(b.dominates(c.bb, m.bb) and c.bb != m.bb for m in mm):
-            continue
-        if is_topbit_test(b, c, set()):
-            guard = c
-        hb = fam.get(norm(c.t.get("resolved") or c.callee or ""))
-        if hb is not None and hb is not b and any(is_topbit_test(hb, c2, {"arg%d" % (i + 1) for i in range(hb.arg_count)}) for c2 in hb.calls()) \
-                and any("loadu" in canon(b, a) for a in c.args):
-            guard = c
-    ok = False
-    if guard is not None:
-        L = [Ls for h, Ls in b.loops().items() if guard.bb in Ls]
-        # the test's outcome decides between classifying the chunk and leaving the loop
-        for sbb in sorted(b.reach_from(guard.bb, include_start=True)):
-            t = b.blocks[sbb]["term"]
-            if t["k"] == "switch" and L and sbb in L[0] and b.dominates(guard.bb, sbb) and all(b.dominates(sbb, m.bb) for m in mm):
-                succ = [x for _, x in t["targets"]] + [t["otherwise"]]
-                if any(not any(m.bb in b.reach_from(x, avoid=set(b.loops()), include_start=True) for m in mm) for x in succ):
-                    ok = True
+    raw = sorted(set(cl["raw"]))
+    rep.check(not raw, R, "step-mask-from-comparisons-only",
+              "the mask that decides how many bytes the vector scanner steps over contains %s, not only byte comparisons: the top bit of a raw byte is set in every byte of a multi-byte "
+              "character, so the scanner steps through such characters in 32-byte chunks and can hand the scalar scanner a position inside a character (slice panic)"
+              % ["the loaded chunk itself" if r == "RAW" else r for r in raw][:2],
+              where=cl["step"][0][1].where(), instance={"mask": cl["step"][0][2][:80], "raw_leaves": raw[:3]})
+    ok, guard = simd.guard_ok(cl)
     rep.check(ok, R, "non-ascii-chunk-leaves-the-vector-loop",
               "the vector scanner no longer leaves its loop for the scalar scanner when a chunk contains a byte with the top bit set (a test `testz(splat(0x80), chunk)` / `movemask(chunk)` "
               "in front of the classification): it can then step over part of a multi-byte character", where=guard.where() if guard else "%s:%d" % (b.file, b.line),
